@@ -827,7 +827,14 @@ func findAliasFiles(c *core.Ctx) *aliasFiles {
 		uses := readsDir(fn)
 		for _, ci := range core.CallsIn(fn) {
 			if h := ci.Common().StaticCallee(); h != nil && h.Blocks != nil && core.FnPkgPath(h) == pkgPath && len(core.Returns(h)) > 0 {
-				if sig := h.Signature; sig.Results().Len() == 1 && types.Identical(sig.Results().At(0).Type(), types.Typ[types.String]) && readsDir(h) {
+				// a name-building helper: one of its results is a string (possibly next to an error) and it reads the directory
+				hasStr := false
+				for i := 0; i < h.Signature.Results().Len(); i++ {
+					if types.Identical(h.Signature.Results().At(i).Type(), types.Typ[types.String]) {
+						hasStr = true
+					}
+				}
+				if hasStr && readsDir(h) {
 					uses = true
 				}
 			}
